@@ -28,21 +28,26 @@ PROP = "C19"
 # to False to see the violation.
 # ------------------------------------------------------------------------------------------
 
+def _open(fid):
+    """A shape is skipped only while its finding is listed as open in known_findings.json."""
+    return any(f["id"] == fid for f in core.open_findings("C19"))
+
+
 # shell_listen treats the ValueError of a bad signature like any other exception: it leaves its read
 # loop and queues "shutdown", so every later valid request on that connection is never answered.
 # Skipped shape: listen mode, any request after the first invalid one.
-KNOWN_FINDING_INVALID_REQUEST_STOPS_LISTENER = True
+KNOWN_FINDING_INVALID_REQUEST_STOPS_LISTENER = _open('C19-invalid-request-stops-listener')
 
 # Only the success path of execute_request waits for the housekeeping task before "idle".  If a cell
 # prints and then raises, and the stream writer's drain() does not yield (asyncio's does not unless the
 # transport is paused), the stdout stream message is published after the "idle" status.
 # Skipped shape: drain_yields false, cell with stdout that ends in an exception: position of stdout.
-KNOWN_FINDING_STDOUT_AFTER_IDLE_ON_ERROR = True
+KNOWN_FINDING_STDOUT_AFTER_IDLE_ON_ERROR = _open('C19-stdout-after-idle-on-error')
 
 # deserialize_wire_msg signs every frame after the signature, so a correctly signed request that
 # carries extra (unsigned, per the Jupyter wire protocol) buffer frames is rejected.
 # Skipped shape: requests with buffers are not generated.
-KNOWN_FINDING_BUFFERS_COVERED_BY_SIGNATURE = True
+KNOWN_FINDING_BUFFERS_COVERED_BY_SIGNATURE = _open('C19-buffers-covered-by-signature')
 
 CASE_TIMEOUT = 10.0
 
@@ -868,7 +873,7 @@ class C19(ModelCheck):
             self._exit_env()
 
     def n_random(self, tier):
-        return {"quick": 4000, "thorough": 160000}[tier]
+        return {"quick": 3200, "thorough": 160000}[tier]
 
     def exhaustive_cases(self, tier):
         return exhaustive_frame_cases() + exhaustive_session_cases(tier)
